@@ -147,6 +147,11 @@ type Stmt struct {
 	Count   int      `json:"count,omitempty"`
 	Body    []*Stmt  `json:"body,omitempty"`
 	ForStep string   `json:"forstep,omitempty"` // "i++" (default) or "i = i + 1"
+	// Outer (SFor): the loop variable Var is an int32 variable declared
+	// before the loop; the loop is `for Var = Start; Var < Start+Count;
+	// Var++` and leaves Var at Start+Count (also when Count is 0).
+	Outer bool `json:"outer,omitempty"`
+	Start int  `json:"start,omitempty"`
 }
 
 // Param is a function parameter.
@@ -314,7 +319,11 @@ func printStmt(sb *strings.Builder, s *Stmt, lvl int) {
 		if s.ForStep == "add" {
 			step = s.Var + " = " + s.Var + " + 1"
 		}
-		fmt.Fprintf(sb, "for %s := 0; %s < %d; %s {\n", s.Var, s.Var, s.Count, step)
+		if s.Outer {
+			fmt.Fprintf(sb, "for %s = %d; %s < %d; %s {\n", s.Var, s.Start, s.Var, s.Start+s.Count, step)
+		} else {
+			fmt.Fprintf(sb, "for %s := 0; %s < %d; %s {\n", s.Var, s.Var, s.Count, step)
+		}
 		printStmts(sb, s.Body, lvl+1)
 		indent(sb, lvl)
 		sb.WriteString("}\n")
